@@ -275,6 +275,49 @@ def k_derived(run, case):
              sample={"n": n, "derivations": hows, "source read before": aged})
 
 
+def k_api(run, case):
+    """
+    Projection requested through main_ape.ape / main_rpe.rpe (which project the objects they are
+    given in place): both trajectories come back projected - whether the estimate differs from
+    the reference, equals it numerically (a copy), or is the very same object.
+    """
+    import copy
+    from evo import main_ape, main_rpe
+    from evo.core import metrics
+    from evo.core.trajectory import Plane
+    from evo.core.units import Unit
+    rng = run.rng(case)
+    plane = list(PLANES)[rng.integers(3)]
+    n = int(rng.integers(3, 40))
+    arr = gen.traj_arrays(rng, n, stamp_cls="small")
+    stamped = bool(rng.random() < .6)
+    ref = gen.make_evo(arr, "se3" if rng.random() < .5 else "xyzq", stamped, flavour=gen.rand_flavour(rng))
+    rel = ["distinct", "equal copy", "nearly equal", "built from the same arrays"][rng.integers(4)]
+    if rel == "distinct":
+        earr = gen.perturbed_estimate(rng, arr, hostile=False)
+    elif rel == "nearly equal":
+        earr = dict(arr, p=arr["p"] + rng.normal(size=arr["p"].shape) * 1e-9 * (1 + np.abs(arr["p"])))
+    else:
+        earr = arr
+    est = copy.deepcopy(ref) if rel == "equal copy" else gen.make_evo(earr, "se3" if rng.random() < .5 else "xyzq", stamped)
+    tool = "ape" if rng.random() < .5 else "rpe"
+    with core.quiet():
+        if tool == "ape":
+            out = contracts.outcome_of(main_ape.ape, ref, est, metrics.PoseRelation.translation_part,
+                                       project_to_plane=Plane(plane))
+        else:
+            out = contracts.outcome_of(main_rpe.rpe, ref, est, metrics.PoseRelation.translation_part, 1.0, Unit.frames,
+                                       project_to_plane=Plane(plane), support_loop=True)
+    run.seen(case, core.digest(arr["p"], arr["R"], plane, rel, tool), cls=["projection via main_%s: estimate %s" % (tool, rel)],
+             sample={"n": n, "plane": plane, "estimate": rel, "tool": tool, "outcome": out[0]})
+    if not run.check(out[0] == "ok", "evaluation with projection succeeds", case,
+                     "main_%s with project_to_plane raised %r" % (tool, out[1]), key="project:raised"):
+        return
+    check_projected(run, case, ref, arr, plane, [False] * n, np.zeros(n), stamped)
+    check_projected(run, case, est, earr, plane, [False] * n, np.zeros(n), stamped)
+    run.hit("projections requested through ape()/rpe() judged")
+
+
 def k_cli(run, case):
     """
     --project_to_plane end to end through evo_traj, combined with the other processing options
@@ -287,7 +330,7 @@ def k_cli(run, case):
     run.hit("evo_traj runs with --project_to_plane judged")
 
 
-KINDS = {"grid": k_grid, "planar": k_planar, "general": k_general, "derived": k_derived, "cli": k_cli}
+KINDS = {"grid": k_grid, "planar": k_planar, "general": k_general, "derived": k_derived, "cli": k_cli, "api": k_api}
 
 
 def main(run):
@@ -303,9 +346,11 @@ def main(run):
         k_general(run, run.case("general", i))
     for i in run.mine(n // 3):
         k_derived(run, run.case("derived", i))
+    for i in run.mine(n // 3):
+        k_api(run, run.case("api", i))
     for i in run.mine({"quick": 90, "thorough": 2000}[run.tier]):
         k_cli(run, run.case("cli", i, force={"plane": True, "downsample": i % 4 == 0, "motion_filter": i % 4 == 1,
                                              "merge": i % 4 == 2}))
-    run.need("evo_traj runs with --project_to_plane judged", "projections of objects derived from one source judged", "out-of-plane coordinate exactly zero", "in-plane coordinates unchanged (bitwise)",
+    run.need("projections requested through ape()/rpe() judged", "evo_traj runs with --project_to_plane judged", "projections of objects derived from one source judged", "out-of-plane coordinate exactly zero", "in-plane coordinates unchanged (bitwise)",
              "orientation is a pure rotation about the plane normal", "planar pose left unchanged",
              "second projection refused", "project keeps timestamps")
